@@ -38,6 +38,10 @@ type LinkCfg struct {
 	ResetAfterRead int   // >0: after the reader consumed this many bytes the connection is reset
 	EOFAfter       int   // >0: after this many bytes have been delivered the direction is closed
 	StallAfter     int   // >0: after this many bytes nothing more is delivered (until Unstall)
+	// EOFWithData: the Read that takes the last byte of a direction whose
+	// FIN has already arrived returns the data together with io.EOF, as
+	// io.Reader allows (and as readers stacked on a connection do)
+	EOFWithData bool
 }
 
 // DrawLink draws a link configuration; 0 choices give whole-write delivery
@@ -172,6 +176,10 @@ func (c *Conn) Read(p []byte) (int, error) {
 				c.out.rst = true
 				c.out.rq.Wake()
 				c.out.wq.Wake()
+			}
+			if h.cfg.EOFWithData && len(h.buf) == 0 && h.fin && !h.rst {
+				simrt.Fault("net-eof-with-data")
+				return n, io.EOF
 			}
 			return n, nil
 		}
